@@ -273,4 +273,211 @@ theorem bmi_h2ij_eq (c : ZocClass) (h : Nat) :
       squeezeN_mod_ge (by decide), squeezeN_half_mod_ge (by decide)]
     rw [Nat.mod_eq_of_lt (Nat.lt_of_lt_of_le (squeezeN_shl_lt 32 _) (by decide))]
 
+/-! ## the LUT `h2ij` in closed form (needed to compare the two builds) -/
+
+theorem cases_lt_64 (q : Nat) (h : q < 64) : q = 0 ∨ q = 1 ∨ q = 2 ∨ q = 3 ∨ q = 4 ∨ q = 5 ∨ q = 6 ∨ q = 7 ∨ q = 8 ∨ q = 9 ∨ q = 10 ∨ q = 11 ∨ q = 12 ∨ q = 13 ∨ q = 14 ∨ q = 15 ∨ q = 16 ∨ q = 17 ∨ q = 18 ∨ q = 19 ∨ q = 20 ∨ q = 21 ∨ q = 22 ∨ q = 23 ∨ q = 24 ∨ q = 25 ∨ q = 26 ∨ q = 27 ∨ q = 28 ∨ q = 29 ∨ q = 30 ∨ q = 31 ∨ q = 32 ∨ q = 33 ∨ q = 34 ∨ q = 35 ∨ q = 36 ∨ q = 37 ∨ q = 38 ∨ q = 39 ∨ q = 40 ∨ q = 41 ∨ q = 42 ∨ q = 43 ∨ q = 44 ∨ q = 45 ∨ q = 46 ∨ q = 47 ∨ q = 48 ∨ q = 49 ∨ q = 50 ∨ q = 51 ∨ q = 52 ∨ q = 53 ∨ q = 54 ∨ q = 55 ∨ q = 56 ∨ q = 57 ∨ q = 58 ∨ q = 59 ∨ q = 60 ∨ q = 61 ∨ q = 62 ∨ q = 63 := by omega
+
+theorem cases_lt_16 (q : Nat) (h : q < 16) : q = 0 ∨ q = 1 ∨ q = 2 ∨ q = 3 ∨ q = 4 ∨ q = 5 ∨ q = 6 ∨ q = 7 ∨ q = 8 ∨ q = 9 ∨ q = 10 ∨ q = 11 ∨ q = 12 ∨ q = 13 ∨ q = 14 ∨ q = 15 := by omega
+
+theorem lut_h2ij_eq_small (h : Nat) :
+    Lut.h2ij .small h = squeezeN 8 h ||| (squeezeN 8 (h / 2) <<< 8) := by
+  simp only [Lut.h2ij, lk_lutIjByte]
+  rw [show h / 2 = h / 2 ^ 1 by simp]
+  apply Nat.eq_of_testBit_eq; intro q
+  simp only [show (256:Nat) = 2^8 by decide, show (65536:Nat) = 2^16 by decide]
+  simp only [Nat.testBit_or, Nat.testBit_mod_two_pow, Nat.testBit_shiftLeft, testBit_squeezeN,
+    Nat.testBit_div_two_pow]
+  by_cases hq : q < 16
+  · rcases cases_lt_16 q hq with rfl | rfl | rfl | rfl | rfl | rfl | rfl | rfl | rfl | rfl | rfl | rfl | rfl | rfl | rfl | rfl
+    all_goals simp
+  · have e : ∀ s b, s + b ≤ 16 → decide (q - s < b) = false := by
+      intro s b hs; simp only [decide_eq_false_iff_not]; omega
+    have e0 : ∀ b, b ≤ 16 → decide (q < b) = false := by
+      intro b hb; simp only [decide_eq_false_iff_not]; omega
+    simp [e, e0]
+
+theorem lut_h2ij_eq_mediu (h : Nat) :
+    Lut.h2ij .mediu h = squeezeN 16 h ||| (squeezeN 16 (h / 2) <<< 16) := by
+  simp only [Lut.h2ij, lk_lutIjShort]
+  rw [show h / 2 = h / 2 ^ 1 by simp]
+  apply Nat.eq_of_testBit_eq; intro q
+  simp only [show (256:Nat) = 2^8 by decide, show (65536:Nat) = 2^16 by decide,
+    show (16777216:Nat) = 2^24 by decide, show (4294967296:Nat) = 2^32 by decide]
+  simp only [Nat.testBit_or, Nat.testBit_mod_two_pow, Nat.testBit_shiftLeft, testBit_squeezeN,
+    Nat.testBit_div_two_pow]
+  by_cases hq : q < 32
+  · rcases cases_lt_32 q hq with rfl | rfl | rfl | rfl | rfl | rfl | rfl | rfl | rfl | rfl | rfl | rfl | rfl | rfl | rfl | rfl | rfl | rfl | rfl | rfl | rfl | rfl | rfl | rfl | rfl | rfl | rfl | rfl | rfl | rfl | rfl | rfl
+    all_goals simp
+  · have e : ∀ s b, s + b ≤ 32 → decide (q - s < b) = false := by
+      intro s b hs; simp only [decide_eq_false_iff_not]; omega
+    have e0 : ∀ b, b ≤ 32 → decide (q < b) = false := by
+      intro b hb; simp only [decide_eq_false_iff_not]; omega
+    simp [e, e0]
+
+theorem lut_h2ij_eq_large (h : Nat) :
+    Lut.h2ij .large h = squeezeN 32 h ||| (squeezeN 32 (h / 2) <<< 32) := by
+  simp only [Lut.h2ij, lk_lutIjInt]
+  rw [show h / 2 = h / 2 ^ 1 by simp]
+  apply Nat.eq_of_testBit_eq; intro q
+  simp only [Nat.testBit_or, Nat.testBit_mod_two_pow, Nat.testBit_shiftLeft, testBit_squeezeN,
+    Nat.testBit_div_two_pow]
+  by_cases hq : q < 64
+  · rcases cases_lt_64 q hq with rfl | rfl | rfl | rfl | rfl | rfl | rfl | rfl | rfl | rfl | rfl | rfl | rfl | rfl | rfl | rfl | rfl | rfl | rfl | rfl | rfl | rfl | rfl | rfl | rfl | rfl | rfl | rfl | rfl | rfl | rfl | rfl | rfl | rfl | rfl | rfl | rfl | rfl | rfl | rfl | rfl | rfl | rfl | rfl | rfl | rfl | rfl | rfl | rfl | rfl | rfl | rfl | rfl | rfl | rfl | rfl | rfl | rfl | rfl | rfl | rfl | rfl | rfl | rfl
+    all_goals simp
+  · have e : ∀ s b, s + b ≤ 64 → decide (q - s < b) = false := by
+      intro s b hs; simp only [decide_eq_false_iff_not]; omega
+    have e0 : ∀ b, b ≤ 64 → decide (q < b) = false := by
+      intro b hb; simp only [decide_eq_false_iff_not]; omega
+    simp [e, e0]
+
+theorem lut_h2ij_eq (c : ZocClass) (h : Nat) :
+    Lut.h2ij c h = squeezeN c.bits h ||| (squeezeN c.bits (h / 2) <<< c.bits) := by
+  cases c
+  · simp [Lut.h2ij, ZocClass.bits, squeezeN]
+  · exact lut_h2ij_eq_small h
+  · exact lut_h2ij_eq_mediu h
+  · exact lut_h2ij_eq_large h
+
+/-! ## property statements (C18, BMI2 build) -/
+
+/-- BMI2 classes: `ij2h` is the interleaving, for every `i, j` below `2^bits` of the class -/
+theorem bmi_ij2h_spec (c : ZocClass) (i j : Nat) (hi : i < 2 ^ c.bits) (hj : j < 2 ^ c.bits) :
+    Bmi.ij2h c i j = interleave i j := by
+  have hb : c.bits ≤ 32 := by cases c <;> decide
+  rw [bmi_ij2h_eq, interleave, ← spreadN_of_lt hi hb, ← spreadN_of_lt hj hb]
+
+/-- the one-coordinate restrictions, for every `i`, `j` -/
+theorem bmi_i02h_spec (c : ZocClass) (i : Nat) : Bmi.i02h c i = Bmi.ij2h c i 0 := by
+  rw [bmi_i02h_eq, bmi_ij2h_eq]; simp
+
+theorem bmi_oj2h_spec (c : ZocClass) (j : Nat) : Bmi.oj2h c j = Bmi.ij2h c 0 j := by
+  rw [bmi_oj2h_eq, bmi_ij2h_eq]; simp
+
+/-- the two halves of the packed `ij` returned by the BMI2 `h2ij`, for every `h` -/
+theorem bmi_h2ij_i (c : ZocClass) (h : Nat) : Lut.ij2i c (Bmi.h2ij c h) = squeezeN c.bits h := by
+  rw [bmi_h2ij_eq, ← lut_h2ij_eq, lut_h2ij_i]
+
+theorem bmi_h2ij_j (c : ZocClass) (h : Nat) : Lut.ij2j c (Bmi.h2ij c h) = squeezeN c.bits (h / 2) := by
+  rw [bmi_h2ij_eq, ← lut_h2ij_eq, lut_h2ij_j]
+
+/-- **every implementation the crate can select agrees**, for every input (in range or not) -/
+theorem bmi_eq_lut_i02h (c : ZocClass) (i : Nat) : Bmi.i02h c i = Lut.i02h c i := by
+  rw [bmi_i02h_eq, lut_i02h_spec]
+
+theorem spreadN_shl_mod {b : Nat} (hb : b ≤ 32) (j : Nat) : (spreadN b j <<< 1) % 2 ^ 64 = spreadN b j <<< 1 := by
+  have h3 := three_spreadN_lt b j
+  have h4 : (4 : Nat) ^ b ≤ 4 ^ 32 := Nat.pow_le_pow_right (by decide) hb
+  rw [Nat.mod_eq_of_lt]
+  rw [Nat.shiftLeft_eq]; omega
+
+theorem bmi_eq_lut_oj2h (c : ZocClass) (j : Nat) : Bmi.oj2h c j = Lut.oj2h c j := by
+  have hb : c.bits ≤ 32 := by cases c <;> decide
+  rw [bmi_oj2h_eq]
+  cases c
+  · simp [Lut.oj2h, ZocClass.bits, spreadN]
+  all_goals
+    simp only [Lut.oj2h, lut_i02h_spec]
+    exact (spreadN_shl_mod hb j).symm
+
+theorem bmi_eq_lut_ij2h (c : ZocClass) (i j : Nat) : Bmi.ij2h c i j = Lut.ij2h c i j := by
+  have h1 := bmi_eq_lut_i02h c i
+  have h2 := bmi_eq_lut_oj2h c j
+  rw [bmi_i02h_eq] at h1
+  rw [bmi_oj2h_eq] at h2
+  rw [bmi_ij2h_eq, h1, h2]
+  cases c
+  · simp [Lut.ij2h, Lut.i02h, Lut.oj2h]
+  all_goals rfl
+
+theorem bmi_eq_lut_h2ij (c : ZocClass) (h : Nat) : Bmi.h2ij c h = Lut.h2ij c h := by
+  rw [bmi_h2ij_eq, lut_h2ij_eq]
+
+/-- the form asked for (in-range arguments); the unconditional equalities above are stronger -/
+theorem bmi_eq_lut (c : ZocClass) :
+    (∀ i j, i < 2 ^ c.bits → j < 2 ^ c.bits → Bmi.ij2h c i j = Lut.ij2h c i j) ∧
+    (∀ h, h < 4 ^ c.bits → Bmi.h2ij c h = Lut.h2ij c h) ∧
+    (∀ i, i < 2 ^ c.bits → Bmi.i02h c i = Lut.i02h c i) ∧
+    (∀ j, j < 2 ^ c.bits → Bmi.oj2h c j = Lut.oj2h c j) :=
+  ⟨fun i j _ _ => bmi_eq_lut_ij2h c i j, fun h _ => bmi_eq_lut_h2ij c h, fun i _ => bmi_eq_lut_i02h c i,
+    fun j _ => bmi_eq_lut_oj2h c j⟩
+
+/-- `h2ij` with `ij2i`/`ij2j` inverts `ij2h` (BMI2 build) -/
+theorem bmi_h2ij_inverts (c : ZocClass) (i j : Nat) (hi : i < 2 ^ c.bits) (hj : j < 2 ^ c.bits) :
+    Lut.ij2i c (Bmi.h2ij c (Bmi.ij2h c i j)) = i ∧ Lut.ij2j c (Bmi.h2ij c (Bmi.ij2h c i j)) = j := by
+  have hb : c.bits ≤ 32 := by cases c <;> decide
+  rw [bmi_ij2h_spec c i j hi hj, bmi_h2ij_i, bmi_h2ij_j]
+  constructor
+  · apply Nat.eq_of_testBit_eq; intro q
+    rw [testBit_squeezeN, testBit_interleave_even]
+    by_cases h : q < c.bits
+    · have : q < 32 := by omega
+      simp [h, this]
+    · have : i.testBit q = false :=
+        Nat.testBit_lt_two_pow (Nat.lt_of_lt_of_le hi (Nat.pow_le_pow_right (by decide) (by omega)))
+      simp [h, this]
+  · apply Nat.eq_of_testBit_eq; intro q
+    rw [testBit_squeezeN, ← Nat.testBit_succ, testBit_interleave_odd]
+    by_cases h : q < c.bits
+    · have : q < 32 := by omega
+      simp [h, this]
+    · have : j.testBit q = false :=
+        Nat.testBit_lt_two_pow (Nat.lt_of_lt_of_le hj (Nat.pow_le_pow_right (by decide) (by omega)))
+      simp [h, this]
+
+/-- `get_zoc` (BMI2 build) rejects `depth > 29` (panic) -/
+theorem get_zoc_bmi_guard (d : Nat) (h : d > 29) : getZocBmi d = none := by
+  simp [getZocBmi, getZocFrom, h]
+
+/-- for every depth `≤ 29`, `get_zoc` (BMI2 build) selects an implementation with enough bits for `2^depth`
+    coordinates -/
+theorem get_zoc_bmi_sufficient : ∀ d, d ≤ 29 → ∃ c, getZocBmi d = some c ∧ d ≤ c.bits := by
+  decide +kernel
+
+/-- the two builds select the same class at every depth -/
+theorem get_zoc_bmi_eq_lut (d : Nat) : getZocBmi d = getZoc d := by
+  by_cases h : d > 29
+  · simp [getZoc, getZocBmi, getZocFrom, h]
+  · have : ∀ d, d ≤ 29 → getZocBmi d = getZoc d := by decide +kernel
+    exact this d (by omega)
+
+/-- **main statement (BMI2 build)**: for every depth `d ≤ 29` and all `i, j < 2^d`, the implementation selected by
+    `get_zoc d` computes the interleaving, which is below `4^d`, `h2ij`/`ij2i`/`ij2j` recover `(i, j)`, the
+    one-coordinate variants are its restrictions, and all four methods return what the LUT build returns -/
+theorem zoc_bmi_correct (d i j : Nat) (hd : d ≤ 29) (hi : i < 2 ^ d) (hj : j < 2 ^ d) :
+    ∃ c, getZocBmi d = some c ∧ Bmi.ij2h c i j = interleave i j ∧ interleave i j < 4 ^ d ∧
+      Lut.ij2i c (Bmi.h2ij c (Bmi.ij2h c i j)) = i ∧ Lut.ij2j c (Bmi.h2ij c (Bmi.ij2h c i j)) = j ∧
+      Bmi.i02h c i = Bmi.ij2h c i 0 ∧ Bmi.oj2h c j = Bmi.ij2h c 0 j ∧
+      getZoc d = some c ∧ Bmi.ij2h c i j = Lut.ij2h c i j ∧
+      Bmi.h2ij c (Bmi.ij2h c i j) = Lut.h2ij c (Lut.ij2h c i j) ∧
+      Bmi.i02h c i = Lut.i02h c i ∧ Bmi.oj2h c j = Lut.oj2h c j := by
+  obtain ⟨c, hc, hdc⟩ := get_zoc_bmi_sufficient d hd
+  have hi' : i < 2 ^ c.bits := Nat.lt_of_lt_of_le hi (Nat.pow_le_pow_right (by decide) hdc)
+  have hj' : j < 2 ^ c.bits := Nat.lt_of_lt_of_le hj (Nat.pow_le_pow_right (by decide) hdc)
+  refine ⟨c, hc, bmi_ij2h_spec c i j hi' hj', interleave_lt (by omega) hi hj,
+    (bmi_h2ij_inverts c i j hi' hj').1, (bmi_h2ij_inverts c i j hi' hj').2, bmi_i02h_spec c i, bmi_oj2h_spec c j,
+    ?_, bmi_eq_lut_ij2h c i j, ?_, bmi_eq_lut_i02h c i, bmi_eq_lut_oj2h c j⟩
+  · rw [← get_zoc_bmi_eq_lut, hc]
+  · rw [bmi_eq_lut_ij2h, bmi_eq_lut_h2ij]
+
+/-- non-vacuity: concrete instances at depths 8, 16 and 29 (one per non-empty class) -/
+example : getZocBmi 29 = some .large ∧
+    Bmi.ij2h .large 0x1FFFFFFF 0x10000001 = interleave 0x1FFFFFFF 0x10000001 ∧
+    Lut.ij2i .large (Bmi.h2ij .large (Bmi.ij2h .large 0x1FFFFFFF 0x10000001)) = 0x1FFFFFFF ∧
+    Lut.ij2j .large (Bmi.h2ij .large (Bmi.ij2h .large 0x1FFFFFFF 0x10000001)) = 0x10000001 := by
+  decide +kernel
+example : getZocBmi 16 = some .mediu ∧ Bmi.ij2h .mediu 0xFFFF 0x8001 = interleave 0xFFFF 0x8001 ∧
+    getZocBmi 8 = some .small ∧ Bmi.ij2h .small 0xFF 0x81 = interleave 0xFF 0x81 := by
+  decide +kernel
+example : IsEvenMask 2 5 ∧ IsOddMask 2 10 ∧ pdep 8 0b111 5 = 5 ∧ pdep 8 0b10 10 = 8 ∧ pext 8 0b1101 5 = 0b11 ∧
+    pext 8 0b1101 10 = 0b10 :=
+  ⟨(isEvenMask_iff _ _).2 (by decide), (isOddMask_iff _ _).2 (by decide), by decide, by decide, by decide, by decide⟩
+
+#print axioms zoc_bmi_correct
+#print axioms bmi_eq_lut
+#print axioms bmi_h2ij_inverts
+#print axioms pdep_even
+#print axioms pdep_odd
+#print axioms pext_even
+#print axioms pext_odd
+
 end Hpx
